@@ -577,6 +577,26 @@ fn matrix_read(case: &Value) {
     }
 }
 
+/// Initial solution reader: the written solution document of the case is read back against the problem.
+fn init_read(case: &Value) {
+    use std::io::BufReader;
+    use vrp_pragmatic::format::problem::PragmaticProblem;
+    use vrp_pragmatic::format::solution::read_init_solution;
+    let problem = Arc::new(
+        (case["problem"].to_string(), vec![case["matrix"].to_string()])
+            .read_pragmatic()
+            .unwrap_or_else(|e| setup_failed("cannot read problem", e)),
+    );
+    let text = case["solution"].to_string();
+    let out = match read_init_solution(BufReader::new(text.as_bytes()), problem, Arc::new(DefaultRandom::default())) {
+        Err(err) => json!({"error": err.to_string()}),
+        Ok(solution) => json!({"routes": solution.routes.iter().map(|r| r.tour.all_activities().filter(|a| a.job.is_some())
+            .map(|a| json!({"place_idx": a.place.idx, "duration": a.place.duration, "location": a.place.location})).collect::<Vec<_>>()).collect::<Vec<_>>(),
+            "unassigned": solution.unassigned.len()}),
+    };
+    println!("{}", serde_json::to_string(&out).unwrap());
+}
+
 /// `Statistic + Statistic` through the public operator.
 fn statistic_sum(case: &Value) {
     use vrp_pragmatic::format::solution::{Statistic, Timing};
@@ -620,6 +640,9 @@ fn main() {
     }
     if case["kind"] == "statistic_sum" {
         return statistic_sum(&case);
+    }
+    if case["kind"] == "init_read" {
+        return init_read(&case);
     }
     if case["kind"] == "goal_order" {
         return goal_order(&case);
